@@ -71,6 +71,15 @@ class Renotate(Stream):
             sc = sg.rand_score(rng, max_chords=4, rel=0.15)
             for c in sc:
                 c["coct"] = rng.choice([0, 0, 1, -1, 2, -2])
+            if name == "decompose_duration":
+                # durations that are not a single note value (5/4, 11/8, 7/4, 5 ...): these are the ones that are really decomposed
+                for c in sc:
+                    for _, notes in c["parts"]:
+                        for nt in notes:
+                            if rng.random() < 0.5:
+                                nt["dur"] = rng.choice([F(5, 4), F(11, 8), F(7, 4), F(5), F(9, 8), F(7, 8), F(5, 2), F(13, 8), F(7, 2)])
+                            if nt["kind"] == "s" and not nt.get("dir") and rng.random() < 0.3:
+                                nt["acc"] = rng.choice(sg.ACCS)
             if name in NEED_EQUAL or rng.random() < 0.3:
                 sc = sg.equalize(sc)
             sc = fix_relative(sc)
